@@ -71,8 +71,15 @@ typedef struct { iora_sv _input; Options _opt; size_t _cur; size_t _line; size_t
  * the line/column counters are bounded by the bytes consumed and can never wrap */
 #define XML_CUR_INV(s) ((s)->_cur <= (s)->_input.n && XML_SMALL((s)->_cur, XML_IN_BITS) && (s)->_line <= (s)->_cur + 1 && (s)->_col <= (s)->_cur + 1 \
                         && XML_SMALL((s)->_line, XML_IN_BITS + 1) && XML_SMALL((s)->_col, XML_IN_BITS + 1))
+/* GS is an arbitrary ghost position of the input ("for every position GS ..." without a quantifier) and GSC the input byte at GS.
+ * GSC is DEFINED by the precondition (the input is immutable, so the definition stays true); clauses and loop invariants then
+ * speak about GSC instead of re-reading input[GS], which keeps the number of symbolic array reads small (measured: 123 s -> 6 s). */
+size_t GS; char GSC;
+/* GOC = the input byte under the cursor on entry (defined by the precondition when the cursor is not at the end) */
+char GOC;
 #define XML_PRE(s) (IORA_TRUE && __CPROVER_is_fresh(s, sizeof(*(s))) && XML_SMALL((s)->_input.n, XML_IN_BITS) \
-                    && __CPROVER_is_fresh((s)->_input.p, (s)->_input.n) && XML_CUR_INV(s))
+                    && __CPROVER_is_fresh((s)->_input.p, (s)->_input.n) && XML_CUR_INV(s) && (GS < (s)->_input.n ==> GSC == (s)->_input.p[GS]) \
+                    && ((s)->_cur < (s)->_input.n ==> GOC == (s)->_input.p[(s)->_cur]))
 #define XML_AT(s, i) ((s)->_input.p[i])
 /* slice containment, exact form: view v is the input range [off, off+len) */
 #define XML_SLICE_IS(s, v, off, len) (__CPROVER_same_object((v).p, (s)->_input.p) && (v).p == (s)->_input.p + (off) && (v).n == (len) \
